@@ -19,5 +19,7 @@ pub broadcast axiom fn nan_sqrt(a: f64) ensures s_is_nan(a) ==> s_is_nan(#[trigg
 pub broadcast axiom fn nan_not_le(a: f64, b: f64) ensures s_is_nan(a) ==> !#[trigger] f_le(a, b);
 #[verifier::allow(broadcast_without_trigger)]
 pub broadcast axiom fn inf_not_le_one() ensures !f_le(INFINITY_s(), 1.0f64);
-pub broadcast group ieee_axioms { finite_self_diff, eq_refl_literals, gt_irrefl, ngt_trans, nan_add, nan_mul, nan_div, nan_sqrt, nan_not_le, inf_not_le_one }
+/// a value clamped to [1.0, 5 as f64] and cast to usize is at most 5 (NaN casts to 0)          kani: clamp_cast_le5
+pub broadcast axiom fn clamp_cast_le5(x: f64) ensures #[trigger] s_to_usize(s_clamp(x, 1.0f64, s_of_usize(5))) <= 5;
+pub broadcast group ieee_axioms { finite_self_diff, eq_refl_literals, gt_irrefl, ngt_trans, nan_add, nan_mul, nan_div, nan_sqrt, nan_not_le, inf_not_le_one, clamp_cast_le5 }
 }
